@@ -7,6 +7,13 @@ import subprocess
 VERIF = os.path.dirname(os.path.dirname(os.path.abspath(__file__)))
 
 CHECKS = {
+ "C13": ("exploration", "§4 C13",
+         "Simulated MD writer appending a generated trajectory at byte granularity while the real on-the-fly "
+         "reader (LAMMPS dump, CP2K xyz, GROMACS TRR via GromacsRunner with a simulated process and virtual "
+         "sleep) is polled in between; every single cut position is enumerated per trajectory (sampled above "
+         "a size cap) plus seeded multi-cut schedules.",
+         "append-only writer; a text frame lacking only its final newline counts as complete.",
+         "deterministic simulation: simulated writer with enumerated and seeded partial-write schedules against the real readers, prefix oracle"),
  "C08": ("fault_enumeration", "§4 C08",
          "File-system effect seam on the main process with snapshot enumeration: every effect boundary of "
          "every (selected) step and torn variants of every file flush give a crash state; each is "
@@ -88,7 +95,7 @@ NOT_APPLICABLE = {
  "C20": "algebraic symmetry laws over coordinates; no schedule, time or fault dimension (DESIGN.md §6)",
 }
 PENDING = {k: "check under construction (simulation layer not built yet); not claimed until it runs clean on the unchanged tree"
-           for k in ("C12", "C13")}
+           for k in ("C12",)}
 
 
 def main():
